@@ -12,10 +12,12 @@ Line-protocol driver for C10 and C09 (exe `nv_c10`).
   (jsdoc "description")                              → (ok "line"…)
   (ts.mem (tsfile …) (mods ("m" (tsfile …))…) SCOPE J TY)   → (ok BOOL)
   (ts.mems (tsfile …) (mods …) ((SCOPE TY (J…))…))          → (ok (BOOL…)…)
+  (ts.table (tsfile …) (mods …) (J…) ((SCOPE TY)…))          → (ok (BOOL…)…)      one row per type
+  (ref.table cfg (tsdoc …) (J…) ((target "TypeName")…))      → (ok (BOOL…)…)
   (ts.atoms (tsfile …) (mods …) SCOPE TY)                    → (ok "tag"…)
   (ref.mem cfg (tsdoc …) target "TypeName" J)        → (ok BOOL)
   (ref.mems cfg (tsdoc …) ((target "TypeName" (J…))…)) → (ok (BOOL…)…)
-  (coerce cfg (tsdoc …) ((vardef …)…) (J…))          → (ok (COERCIBLE…) (EXPLICIT…))
+  (coerce cfg (tsdoc …) ((vardef …)…) (J…))          → (ok (COERCIBLE…) (EXPLICIT…) (EXPLICIT if option on…) (EXPLICIT if option off…))
   (scalar.get SC target)                             → (ok "text")
 -/
 import NitroVerif.Base.Sexp
@@ -101,6 +103,31 @@ def handle : Sexp → Sexp
       | some rs => Sexp.ok rs
       | none => Sexp.err "decode-query"
     | _, _ => Sexp.err "decode"
+  | .list [.atom "ts.table", f, ms, .list vs, .list qs] =>
+    match Ts.Dec.file f, decMods ms, vs.mapM Ts.Dec.j with
+    | some f, some ms, some vs =>
+      let env := Ts.Env.ofFiles f ms
+      let rs := qs.mapM fun
+        | .list [sc, t] => do
+          let g := Ts.globalise env.decls (← Ts.Dec.scope sc) [] (← Ts.Dec.ty t)
+          some (bools (vs.map fun v => Ts.memG env fuel v g))
+        | _ => none
+      match rs with
+      | some rs => Sexp.ok rs
+      | none => Sexp.err "decode-query"
+    | _, _, _ => Sexp.err "decode"
+  | .list [.atom "ref.table", c, d, .list vs, .list qs] =>
+    match decCfg c, Gql.Dec.tsDoc d, vs.mapM Ts.Dec.j with
+    | some c, some d, some vs =>
+      let rs := qs.mapM fun
+        | .list [t, .str n] => do
+          let t ← decTarget t
+          some (bools (vs.map fun v => RefTypes.refMem c ⟨d⟩ t fuel n v))
+        | _ => none
+      match rs with
+      | some rs => Sexp.ok rs
+      | none => Sexp.err "decode-query"
+    | _, _, _ => Sexp.err "decode"
   | .list [.atom "ts.atoms", f, ms, sc, t] =>
     match Ts.Dec.file f, decMods ms, Ts.Dec.scope sc, Ts.Dec.ty t with
     | some f, some ms, some sc, some t =>
@@ -127,7 +154,9 @@ def handle : Sexp → Sexp
   | .list [.atom "coerce", c, d, .list vds, .list vs] =>
     match decCfg c, Gql.Dec.tsDoc d, vds.mapM Gql.Dec.vardef, vs.mapM Ts.Dec.j with
     | some c, some d, some vds, some vs =>
-      Sexp.ok [bools (vs.map (Coerce.coercibleVars c ⟨d⟩ fuel vds)), bools (vs.map (Coerce.explicitVars c ⟨d⟩ fuel vds))]
+      Sexp.ok [bools (vs.map (Coerce.coercibleVars c ⟨d⟩ fuel vds)), bools (vs.map (Coerce.explicitVars c ⟨d⟩ fuel vds)),
+        bools (vs.map (Coerce.explicitVars { c with optionalInput := true } ⟨d⟩ fuel vds)),
+        bools (vs.map (Coerce.explicitVars { c with optionalInput := false } ⟨d⟩ fuel vds))]
     | _, _, _, _ => Sexp.err "decode"
   | .list [.atom "scalar.get", sc, t] =>
     match decScalar (match sc with | .list (h :: r) => .list (h :: .str "_" :: r) | x => x), decTarget t with
